@@ -51,9 +51,26 @@ type sel struct {
 	drm      string // "" | "cbcs" | "cenc"
 	far      bool   // a segment far from availabilityStartTime (numbers close to 2^30)
 	nsegs    int
-	pos      int  // >= 0: position in the loop of the first chosen segment
-	past     bool // request only before availability (425) and after the segment end (nothing sleeps)
-	spread   bool // request instants over the whole life of the segment (25/50/75 %, [start+mean duration, end))
+	pos      int    // >= 0: position in the loop of the first chosen segment
+	past     bool   // request only before availability (425) and after the segment end (nothing sleeps)
+	spread   bool   // request instants over the whole life of the segment (25/50/75 %, [start+mean duration, end))
+	extra    string // further URL key for both modes (e.g. scte35_1)
+	hunt     string // choose a segment whose whole-mode body has this top-level box (e.g. emsg), if one is found
+}
+
+// hasTopBox scans the top-level box headers of an ISOBMFF byte string.
+func hasTopBox(data []byte, typ string) bool {
+	for off := 0; off+8 <= len(data); {
+		sz := int(data[off])<<24 | int(data[off+1])<<16 | int(data[off+2])<<8 | int(data[off+3])
+		if string(data[off+4:off+8]) == typ {
+			return true
+		}
+		if sz < 8 {
+			return false
+		}
+		off += sz
+	}
+	return false
 }
 
 // plan builds the scenarios.  The offsets stay inside the property's quantifier: from one sample short of
@@ -105,7 +122,7 @@ func plan(env *tl.Env, rng *rand.Rand, thorough bool) []*scen {
 		case "@big":
 			cd = fmtMS(2 * mn)
 		}
-		sels = append(sels, sel{asset, audio, mode, snr, ast, ato, cd, drm, far, nsegs, -1, false, false})
+		sels = append(sels, sel{asset, audio, mode, snr, ast, ato, cd, drm, far, nsegs, -1, false, false, "", ""})
 	}
 	const bigAST = 1_699_999_000
 	if !thorough {
@@ -156,6 +173,9 @@ func plan(env *tl.Env, rng *rand.Rand, thorough bool) []*scen {
 		lastSel().past = true
 		add("g_1001tl", false, "number", -1, 0, short2, "@gt", "", false, 1)
 		lastSel().past = true
+		// a segment that carries event message boxes (SCTE-35): they sit in front of the first chunk
+		add("testpic_2s", false, "number", -1, 0, half, "@eq", "", false, 1)
+		lastSel().past, lastSel().extra, lastSel().hunt = true, "scte35_1", "emsg"
 	} else {
 		fs := []atoF{short1, short2, q34, half, third, quart, eighth}
 		cds := []string{"0.04", "0.1", "0.25", "0.5", "1", "1.75", "3"}
@@ -217,6 +237,10 @@ func plan(env *tl.Env, rng *rand.Rand, thorough bool) []*scen {
 				pi++
 			}
 		}
+		add("testpic_2s", false, "number", -1, 0, half, "@eq", "", false, 1)
+		lastSel().extra, lastSel().hunt = "scte35_1", "emsg"
+		add("testpic_2s", false, "time", 1, bigAST, q34, "@eq", "", false, 1)
+		lastSel().past, lastSel().extra, lastSel().hunt = true, "scte35_3", "emsg"
 		for _, x := range []struct {
 			ato int64
 			cd  string
@@ -239,6 +263,10 @@ func plan(env *tl.Env, rng *rand.Rand, thorough bool) []*scen {
 			extra = append(extra, "eccp_"+x.drm)
 			wextra = append(wextra, "eccp_"+x.drm)
 		}
+		if x.extra != "" {
+			extra = append(extra, x.extra)
+			wextra = append(wextra, x.extra)
+		}
 		c := tl.Cfg{Mode: x.mode, SNR: x.snr, AST: x.ast, TSBD: -1, AtoMS: x.atoMS, Extra: extra}
 		wc := c
 		wc.Extra = wextra
@@ -255,6 +283,17 @@ func plan(env *tl.Env, rng *rand.Rand, thorough bool) []*scen {
 					n = 1_750_000_000_000/loopMS*N + r.Int63n(N)
 				} else {
 					n = 400_000_000/loopMS*N + r.Int63n(N)
+				}
+			}
+			if x.hunt != "" && len(s.ns) == 0 {
+				// input selection only: look at whole-mode bodies of the next segments for the wanted box
+				for m := n; m < n+200; m++ {
+					e := (tl.EndTicks(a.Video, m)*1000 + a.Video.TS - 1) / a.Video.TS
+					rr := env.S.Get(tl.SegURL(wc, a, rt, m) + "?nowMS=" + fmt.Sprint(x.ast*1000+e+1000))
+					if rr.Status == 200 && hasTopBox(rr.Body, x.hunt) {
+						n = m
+						break
+					}
 				}
 			}
 			if x.pos >= 0 && len(s.ns) == 0 {
